@@ -324,6 +324,8 @@ class SimTime(object):
     return self._s.now
 
   def sleep(self, d):
+    if d < 0:
+      raise ValueError('sleep length must be non-negative')
     self._s.sleep(d)
 
   def monotonic(self):
